@@ -407,7 +407,31 @@ func (vc *VC) lockAcquire(li *LockInv, lv *LVal) []Loc {
 func (vc *VC) lockRelease(li *LockInv, lv *LVal, mode int) {
 	self := SV{L: []string{lv.Ref}}
 	g := vc.evalClause(li.GoName, li.Pkg, []SV{self}, vc.st, vc.entry)
-	vc.oblige("lockinv:"+li.Type, li.Tags, g)
+	// one obligation per top-level conjunct: a failure names the part of the invariant that broke
+	for i, c := range topConjuncts(g) {
+		vc.oblige(fmt.Sprintf("lockinv:%s.%d", li.Type, i+1), li.Tags, c)
+	}
+}
+
+// topConjuncts flattens nested (and ...) at the top of a formula.
+func topConjuncts(g string) []string {
+	n := parseSx(g)
+	var out []string
+	var walk func(x *sx)
+	walk = func(x *sx) {
+		if x.atom == "" && len(x.kids) > 0 && x.kids[0].atom == "and" {
+			for _, k := range x.kids[1:] {
+				walk(k)
+			}
+			return
+		}
+		out = append(out, g[x.s:x.e])
+	}
+	if n == nil {
+		return []string{g}
+	}
+	walk(n)
+	return out
 }
 
 // ---- verification of one function ----------------------------------------------------------
